@@ -63,6 +63,10 @@ def parse_op(s):
     if m: return {"Tls" + m[2].capitalize(): {"k": int(m[1])}}
     m = re.match(r"^lazy(\d+)\.(get|cell_read)$", s)
     if m: return {("LazyGet" if m[2] == "get" else "LazyCellRead"): {"k": int(m[1])}}
+    m = re.match(r"^c(\d+)\.with_mut\(panic\)$", s)
+    if m: return {"PanicInCellMut": {"c": int(m[1])}}
+    m = re.match(r"^x(\d+)\.with_mut\(panic\)$", s)
+    if m: return {"PanicInAtomMut": {"a": int(m[1])}}
     m = re.match(r"^panic_if\((-?\d+)\)$", s)
     if m: return {"PanicIf": {"v": int(m[1])}}
     simple = {"park": "Park", "yield": "Yield", "recv": "Recv", "try_recv": "TryRecv", "drop(rx)": "DropRx", "stop_exploring": "StopExploring", "explore": "Explore", "skip_branch": "SkipBranch"}
